@@ -146,7 +146,12 @@ class M(Model):
     # ---- C11: the episode ends when the "agent has collected all pellets", "touches a ghost" or at the limit
     def early_end_explained(self, states, actions):
         s = states[-1]
-        return bool(s.dead) or len(self._live(s, s.pellet_locations)) == 0
+        if len(self._live(s, s.pellet_locations)) == 0:
+            return True
+        # a ghost contact kills the player only when the ghosts are not frightened: while the state the move was made
+        # from still shows steps of scatter mode left (`frightened_state_time` > 0) the ghost is eaten instead
+        prev = states[-2] if len(states) >= 2 else None
+        return bool(s.dead) and (prev is None or int(prev.frightened_state_time) <= 0)
 
     def mask_guard(self, s):
         # entry 4 (no-op) is hard-wired to False although a no-op is executable; the docs define the
